@@ -68,6 +68,7 @@ type rw struct {
 	failed    []string
 	labelled  map[*ast.SelectStmt]bool
 	timerType map[*ast.SelectorExpr]bool
+	touch     bool // insert vs.Touch() before shared writes (product files only)
 }
 
 func isChan(t types.Type) bool {
@@ -110,6 +111,18 @@ func (r *rw) premark(f *ast.File) {
 		case *ast.RangeStmt:
 			if isChan(info.TypeOf(x.X)) {
 				r.marks[x] = "rangechan"
+			}
+		case *ast.AssignStmt:
+			if r.touch && x.Tok != token.DEFINE {
+				for _, l := range x.Lhs {
+					if r.sharedWrite(l) {
+						r.marks[x] = "touch"
+					}
+				}
+			}
+		case *ast.IncDecStmt:
+			if r.touch && r.sharedWrite(x.X) {
+				r.marks[x] = "touch"
 			}
 		case *ast.SelectorExpr:
 			if tn, ok := info.Uses[x.Sel].(*types.TypeName); ok && tn.Pkg() != nil {
@@ -184,6 +197,96 @@ func (r *rw) premark(f *ast.File) {
 		}
 		return true
 	})
+}
+
+// sharedWrite tells whether assigning to lhs writes memory that another goroutine may hold a
+// reference to: a package-level variable, anything reached through a pointer, slice or map.
+// Writes to plain local variables and to fields of local struct/array VALUES are private.
+// Such statements get a scheduling point in front of them (vs.Touch), so that state kept in a
+// shared object between two synchronisation operations (a scratch header hoisted into a struct
+// that several workers use, a memo written under a read lock) is interleaved by the explorer.
+func (r *rw) sharedWrite(lhs ast.Expr) bool {
+	info := r.p.TypesInfo
+	for {
+		switch e := lhs.(type) {
+		case *ast.ParenExpr:
+			lhs = e.X
+		case *ast.Ident:
+			if e.Name == "_" {
+				return false
+			}
+			v, ok := info.ObjectOf(e).(*types.Var)
+			return ok && v.Pkg() != nil && v.Parent() == v.Pkg().Scope()
+		case *ast.StarExpr:
+			return true
+		case *ast.SelectorExpr:
+			if _, isPkg := info.Uses[identOf(e.X)].(*types.PkgName); isPkg {
+				return true // other package's variable
+			}
+			if t := info.TypeOf(e.X); t != nil {
+				if _, ok := t.Underlying().(*types.Pointer); ok {
+					return true
+				}
+			}
+			lhs = e.X
+		case *ast.IndexExpr:
+			if t := info.TypeOf(e.X); t != nil {
+				switch t.Underlying().(type) {
+				case *types.Slice, *types.Map, *types.Pointer:
+					return true
+				}
+			}
+			lhs = e.X
+		default:
+			return true
+		}
+	}
+}
+
+// splittable: every left side is a selector chain on an identifier, every right side an identifier,
+// selector chain, basic literal or nil, and no right side mentions the root of a left side or a left
+// side's field (so that carrying out the assignments one by one gives the same result).
+func (r *rw) splittable(as *ast.AssignStmt) bool {
+	var chain func(e ast.Expr) (root *ast.Ident, ok bool)
+	chain = func(e ast.Expr) (*ast.Ident, bool) {
+		switch x := e.(type) {
+		case *ast.Ident:
+			return x, true
+		case *ast.SelectorExpr:
+			return chain(x.X)
+		}
+		return nil, false
+	}
+	lhsText := map[string]bool{}
+	for _, l := range as.Lhs {
+		if _, ok := l.(*ast.SelectorExpr); !ok {
+			return false
+		}
+		if _, ok := chain(l); !ok {
+			return false
+		}
+		lhsText[types.ExprString(l)] = true
+	}
+	for _, e := range as.Rhs {
+		switch x := e.(type) {
+		case *ast.BasicLit:
+		case *ast.Ident, *ast.SelectorExpr:
+			if _, ok := chain(x); !ok {
+				return false
+			}
+			if lhsText[types.ExprString(x)] {
+				return false
+			}
+		default:
+			return false
+		}
+	}
+	return true
+}
+
+func identOf(e ast.Expr) *ast.Ident {
+	id, _ := e.(*ast.Ident)
+	return id
 }
 
 func (r *rw) isCallee(f *ast.File, se *ast.SelectorExpr) bool {
@@ -332,6 +435,28 @@ func (r *rw) file(f *ast.File) {
 				x.Args = append([]ast.Expr{recv}, x.Args...)
 			case strings.HasPrefix(mk, "local:"):
 				x.Fun = ast.NewIdent(strings.TrimPrefix(mk, "local:"))
+			}
+		case *ast.AssignStmt, *ast.IncDecStmt:
+			if r.marks[x] == "touch" && c.Index() >= 0 {
+				r.used = true
+				// a, b = x, y with independent simple operands is two stores: split it so that another
+				// thread can run between them (the stores of a tuple assignment are not atomic)
+				if as, ok := x.(*ast.AssignStmt); ok && as.Tok == token.ASSIGN && len(as.Lhs) > 1 && len(as.Lhs) == len(as.Rhs) && r.splittable(as) {
+					touch := func() ast.Stmt { return &ast.ExprStmt{X: &ast.CallExpr{Fun: sel("Touch")}} }
+					list := []ast.Stmt{touch()}
+					for i := range as.Lhs {
+						list = append(list, &ast.AssignStmt{Lhs: []ast.Expr{as.Lhs[i]}, Tok: token.ASSIGN, Rhs: []ast.Expr{as.Rhs[i]}}, touch())
+					}
+					for _, st := range list[:len(list)-1] {
+						c.InsertBefore(st)
+					}
+					c.Replace(list[len(list)-1])
+					break
+				}
+				// a point before the write and one after it: another thread may run between the write and
+				// whatever reads the shared object next
+				c.InsertBefore(&ast.ExprStmt{X: &ast.CallExpr{Fun: sel("Touch")}})
+				c.InsertAfter(&ast.ExprStmt{X: &ast.CallExpr{Fun: sel("Touch")}})
 			}
 		case *ast.SelectStmt:
 			c.Replace(r.selectStmt(x))
@@ -506,6 +631,9 @@ func main() {
 				continue
 			}
 			r := &rw{modPath: modPath, venvPath: modPath + "/zzvenv", p: p, fset: p.Fset, marks: map[ast.Node]string{}}
+			base := filepath.Base(name)
+			r.touch = !strings.HasPrefix(base, "zz_verif_") && !strings.HasSuffix(base, "_test.go") && !strings.HasSuffix(base, "_easyjson.go") &&
+				!strings.HasPrefix(p.PkgPath, modPath+"/zzref") && !strings.HasPrefix(p.PkgPath, modPath+"/cmd/")
 			r.file(f)
 			rel, _ := filepath.Rel(src, name)
 			var buf bytes.Buffer
